@@ -5,7 +5,7 @@ package discovery
 // laws of the combine functions (which ARE proved) to "the statistics do not depend on the batch boundaries".
 //
 // Exhaustive over: all record streams of length <= 3 over {GET,POST} x {a.com/x, a.com/y} x status {200,500} x duration
-// {1,4}, and of length 4 with the duration fixed, with strictly increasing timestamps, and every way of cutting the
+// {1,4}, and of length 4 with the duration fixed, with distinct timestamps in rotated (not log) order, and every way of cutting the
 // stream into two consecutive batches. For each:
 //   - the REAL GetUpdatedAggregations is run batch by batch and once over the whole stream; the endpoint statistics must
 //     agree (count, status-code counts, min/max time exactly; averages up to 1e-3);
@@ -102,7 +102,7 @@ func TestBoundedC15BatchBoundariesDoNotMatter(t *testing.T) {
 				d := c % choices
 				c /= choices
 				stream[i] = AccessLog{
-					Timestamp:     int64(1000 + 10*i),
+					Timestamp:     int64(1000 + 10*((i+code)%n)), // a rotation of n distinct instants: records are not logged in time order
 					Method:        methods[d%2],
 					URL:           urls[(d/2)%2],
 					StatusCode:    statuses[(d/4)%2],
